@@ -368,10 +368,10 @@ mod verif_c01_step_read {
         kani::cover!(true, "c01_translate_page_4kib_p1_absent_hi: reachable");
     }
 
-    //@ obligation C01 C01.translate_page_4kib.shape_p1_absent.agrees_with_walk tier=thorough bounded="pool of 7 tables (4 path + 3 allocatable); tree-shaped sparse pre-state (target path, one neighbour word per path table, garbage in allocatable frames); page-table indices (255,511,0,1)"
-    //@ obligation C02 C02.translate_page_4kib.shape_p1_absent.documented_outcome tier=thorough bounded="pool of 7 tables (4 path + 3 allocatable); tree-shaped sparse pre-state (target path, one neighbour word per path table, garbage in allocatable frames); page-table indices (255,511,0,1)"
-    //@ obligation C09 C09.translate_page_4kib.shape_p1_absent.writes_nothing tier=thorough bounded="pool of 7 tables (4 path + 3 allocatable); tree-shaped sparse pre-state (target path, one neighbour word per path table, garbage in allocatable frames); page-table indices (255,511,0,1)"
-    //@ obligation C09 C09.translate_page_4kib.shape_p1_absent.no_frames_requested_or_zeroed tier=thorough bounded="pool of 7 tables (4 path + 3 allocatable); tree-shaped sparse pre-state (target path, one neighbour word per path table, garbage in allocatable frames); page-table indices (255,511,0,1)"
+    //@ obligation C01 C01.translate_page_4kib.shape_p1_absent.agrees_with_walk bounded="pool of 7 tables (4 path + 3 allocatable); tree-shaped sparse pre-state (target path, one neighbour word per path table, garbage in allocatable frames); page-table indices (255,511,0,1)"
+    //@ obligation C02 C02.translate_page_4kib.shape_p1_absent.documented_outcome bounded="pool of 7 tables (4 path + 3 allocatable); tree-shaped sparse pre-state (target path, one neighbour word per path table, garbage in allocatable frames); page-table indices (255,511,0,1)"
+    //@ obligation C09 C09.translate_page_4kib.shape_p1_absent.writes_nothing bounded="pool of 7 tables (4 path + 3 allocatable); tree-shaped sparse pre-state (target path, one neighbour word per path table, garbage in allocatable frames); page-table indices (255,511,0,1)"
+    //@ obligation C09 C09.translate_page_4kib.shape_p1_absent.no_frames_requested_or_zeroed bounded="pool of 7 tables (4 path + 3 allocatable); tree-shaped sparse pre-state (target path, one neighbour word per path table, garbage in allocatable frames); page-table indices (255,511,0,1)"
     #[kani::proof]
     #[kani::stub(PageTable::zero, zero_stub)]
     fn c01_translate_page_4kib_p1_absent_mid() {
@@ -610,10 +610,10 @@ mod verif_c01_step_read {
         kani::cover!(true, "c01_translate_page_2mib_p2_absent_up: reachable");
     }
 
-    //@ obligation C01 C01.translate_page_2mib.shape_p2_huge.agrees_with_walk bounded="pool of 7 tables (4 path + 3 allocatable); tree-shaped sparse pre-state (target path, one neighbour word per path table, garbage in allocatable frames); page-table indices (0,0,0,0)"
-    //@ obligation C02 C02.translate_page_2mib.shape_p2_huge.documented_outcome bounded="pool of 7 tables (4 path + 3 allocatable); tree-shaped sparse pre-state (target path, one neighbour word per path table, garbage in allocatable frames); page-table indices (0,0,0,0)"
-    //@ obligation C09 C09.translate_page_2mib.shape_p2_huge.writes_nothing bounded="pool of 7 tables (4 path + 3 allocatable); tree-shaped sparse pre-state (target path, one neighbour word per path table, garbage in allocatable frames); page-table indices (0,0,0,0)"
-    //@ obligation C09 C09.translate_page_2mib.shape_p2_huge.no_frames_requested_or_zeroed bounded="pool of 7 tables (4 path + 3 allocatable); tree-shaped sparse pre-state (target path, one neighbour word per path table, garbage in allocatable frames); page-table indices (0,0,0,0)"
+    //@ obligation C01 C01.translate_page_2mib.shape_p2_huge.agrees_with_walk tier=thorough bounded="pool of 7 tables (4 path + 3 allocatable); tree-shaped sparse pre-state (target path, one neighbour word per path table, garbage in allocatable frames); page-table indices (0,0,0,0)"
+    //@ obligation C02 C02.translate_page_2mib.shape_p2_huge.documented_outcome tier=thorough bounded="pool of 7 tables (4 path + 3 allocatable); tree-shaped sparse pre-state (target path, one neighbour word per path table, garbage in allocatable frames); page-table indices (0,0,0,0)"
+    //@ obligation C09 C09.translate_page_2mib.shape_p2_huge.writes_nothing tier=thorough bounded="pool of 7 tables (4 path + 3 allocatable); tree-shaped sparse pre-state (target path, one neighbour word per path table, garbage in allocatable frames); page-table indices (0,0,0,0)"
+    //@ obligation C09 C09.translate_page_2mib.shape_p2_huge.no_frames_requested_or_zeroed tier=thorough bounded="pool of 7 tables (4 path + 3 allocatable); tree-shaped sparse pre-state (target path, one neighbour word per path table, garbage in allocatable frames); page-table indices (0,0,0,0)"
     #[kani::proof]
     #[kani::stub(PageTable::zero, zero_stub)]
     fn c01_translate_page_2mib_p2_huge_lo() {
@@ -643,10 +643,10 @@ mod verif_c01_step_read {
         kani::cover!(true, "c01_translate_page_2mib_p2_huge_mid: reachable");
     }
 
-    //@ obligation C01 C01.translate_page_2mib.shape_p2_huge.agrees_with_walk tier=thorough bounded="pool of 7 tables (4 path + 3 allocatable); tree-shaped sparse pre-state (target path, one neighbour word per path table, garbage in allocatable frames); page-table indices (256,1,510,255)"
-    //@ obligation C02 C02.translate_page_2mib.shape_p2_huge.documented_outcome tier=thorough bounded="pool of 7 tables (4 path + 3 allocatable); tree-shaped sparse pre-state (target path, one neighbour word per path table, garbage in allocatable frames); page-table indices (256,1,510,255)"
-    //@ obligation C09 C09.translate_page_2mib.shape_p2_huge.writes_nothing tier=thorough bounded="pool of 7 tables (4 path + 3 allocatable); tree-shaped sparse pre-state (target path, one neighbour word per path table, garbage in allocatable frames); page-table indices (256,1,510,255)"
-    //@ obligation C09 C09.translate_page_2mib.shape_p2_huge.no_frames_requested_or_zeroed tier=thorough bounded="pool of 7 tables (4 path + 3 allocatable); tree-shaped sparse pre-state (target path, one neighbour word per path table, garbage in allocatable frames); page-table indices (256,1,510,255)"
+    //@ obligation C01 C01.translate_page_2mib.shape_p2_huge.agrees_with_walk bounded="pool of 7 tables (4 path + 3 allocatable); tree-shaped sparse pre-state (target path, one neighbour word per path table, garbage in allocatable frames); page-table indices (256,1,510,255)"
+    //@ obligation C02 C02.translate_page_2mib.shape_p2_huge.documented_outcome bounded="pool of 7 tables (4 path + 3 allocatable); tree-shaped sparse pre-state (target path, one neighbour word per path table, garbage in allocatable frames); page-table indices (256,1,510,255)"
+    //@ obligation C09 C09.translate_page_2mib.shape_p2_huge.writes_nothing bounded="pool of 7 tables (4 path + 3 allocatable); tree-shaped sparse pre-state (target path, one neighbour word per path table, garbage in allocatable frames); page-table indices (256,1,510,255)"
+    //@ obligation C09 C09.translate_page_2mib.shape_p2_huge.no_frames_requested_or_zeroed bounded="pool of 7 tables (4 path + 3 allocatable); tree-shaped sparse pre-state (target path, one neighbour word per path table, garbage in allocatable frames); page-table indices (256,1,510,255)"
     #[kani::proof]
     #[kani::stub(PageTable::zero, zero_stub)]
     fn c01_translate_page_2mib_p2_huge_up() {
@@ -797,10 +797,10 @@ mod verif_c01_step_read {
         kani::cover!(true, "c01_translate_page_1gib_p3_huge_lo: reachable");
     }
 
-    //@ obligation C01 C01.translate_page_1gib.shape_p3_huge.agrees_with_walk bounded="pool of 7 tables (4 path + 3 allocatable); tree-shaped sparse pre-state (target path, one neighbour word per path table, garbage in allocatable frames); page-table indices (511,511,511,511)"
-    //@ obligation C02 C02.translate_page_1gib.shape_p3_huge.documented_outcome bounded="pool of 7 tables (4 path + 3 allocatable); tree-shaped sparse pre-state (target path, one neighbour word per path table, garbage in allocatable frames); page-table indices (511,511,511,511)"
-    //@ obligation C09 C09.translate_page_1gib.shape_p3_huge.writes_nothing bounded="pool of 7 tables (4 path + 3 allocatable); tree-shaped sparse pre-state (target path, one neighbour word per path table, garbage in allocatable frames); page-table indices (511,511,511,511)"
-    //@ obligation C09 C09.translate_page_1gib.shape_p3_huge.no_frames_requested_or_zeroed bounded="pool of 7 tables (4 path + 3 allocatable); tree-shaped sparse pre-state (target path, one neighbour word per path table, garbage in allocatable frames); page-table indices (511,511,511,511)"
+    //@ obligation C01 C01.translate_page_1gib.shape_p3_huge.agrees_with_walk tier=thorough bounded="pool of 7 tables (4 path + 3 allocatable); tree-shaped sparse pre-state (target path, one neighbour word per path table, garbage in allocatable frames); page-table indices (511,511,511,511)"
+    //@ obligation C02 C02.translate_page_1gib.shape_p3_huge.documented_outcome tier=thorough bounded="pool of 7 tables (4 path + 3 allocatable); tree-shaped sparse pre-state (target path, one neighbour word per path table, garbage in allocatable frames); page-table indices (511,511,511,511)"
+    //@ obligation C09 C09.translate_page_1gib.shape_p3_huge.writes_nothing tier=thorough bounded="pool of 7 tables (4 path + 3 allocatable); tree-shaped sparse pre-state (target path, one neighbour word per path table, garbage in allocatable frames); page-table indices (511,511,511,511)"
+    //@ obligation C09 C09.translate_page_1gib.shape_p3_huge.no_frames_requested_or_zeroed tier=thorough bounded="pool of 7 tables (4 path + 3 allocatable); tree-shaped sparse pre-state (target path, one neighbour word per path table, garbage in allocatable frames); page-table indices (511,511,511,511)"
     #[kani::proof]
     #[kani::stub(PageTable::zero, zero_stub)]
     fn c01_translate_page_1gib_p3_huge_hi() {
@@ -808,10 +808,10 @@ mod verif_c01_step_read {
         kani::cover!(true, "c01_translate_page_1gib_p3_huge_hi: reachable");
     }
 
-    //@ obligation C01 C01.translate_page_1gib.shape_p3_huge.agrees_with_walk tier=thorough bounded="pool of 7 tables (4 path + 3 allocatable); tree-shaped sparse pre-state (target path, one neighbour word per path table, garbage in allocatable frames); page-table indices (255,511,0,1)"
-    //@ obligation C02 C02.translate_page_1gib.shape_p3_huge.documented_outcome tier=thorough bounded="pool of 7 tables (4 path + 3 allocatable); tree-shaped sparse pre-state (target path, one neighbour word per path table, garbage in allocatable frames); page-table indices (255,511,0,1)"
-    //@ obligation C09 C09.translate_page_1gib.shape_p3_huge.writes_nothing tier=thorough bounded="pool of 7 tables (4 path + 3 allocatable); tree-shaped sparse pre-state (target path, one neighbour word per path table, garbage in allocatable frames); page-table indices (255,511,0,1)"
-    //@ obligation C09 C09.translate_page_1gib.shape_p3_huge.no_frames_requested_or_zeroed tier=thorough bounded="pool of 7 tables (4 path + 3 allocatable); tree-shaped sparse pre-state (target path, one neighbour word per path table, garbage in allocatable frames); page-table indices (255,511,0,1)"
+    //@ obligation C01 C01.translate_page_1gib.shape_p3_huge.agrees_with_walk bounded="pool of 7 tables (4 path + 3 allocatable); tree-shaped sparse pre-state (target path, one neighbour word per path table, garbage in allocatable frames); page-table indices (255,511,0,1)"
+    //@ obligation C02 C02.translate_page_1gib.shape_p3_huge.documented_outcome bounded="pool of 7 tables (4 path + 3 allocatable); tree-shaped sparse pre-state (target path, one neighbour word per path table, garbage in allocatable frames); page-table indices (255,511,0,1)"
+    //@ obligation C09 C09.translate_page_1gib.shape_p3_huge.writes_nothing bounded="pool of 7 tables (4 path + 3 allocatable); tree-shaped sparse pre-state (target path, one neighbour word per path table, garbage in allocatable frames); page-table indices (255,511,0,1)"
+    //@ obligation C09 C09.translate_page_1gib.shape_p3_huge.no_frames_requested_or_zeroed bounded="pool of 7 tables (4 path + 3 allocatable); tree-shaped sparse pre-state (target path, one neighbour word per path table, garbage in allocatable frames); page-table indices (255,511,0,1)"
     #[kani::proof]
     #[kani::stub(PageTable::zero, zero_stub)]
     fn c01_translate_page_1gib_p3_huge_mid() {
@@ -1078,11 +1078,11 @@ mod verif_c01_step_read {
         kani::cover!(true, "c01_translate_any_p2_huge_lo: reachable");
     }
 
-    //@ obligation C01 C01.translate_any.shape_p2_huge.target_agrees_with_walk bounded="pool of 7 tables (4 path + 3 allocatable); tree-shaped sparse pre-state (target path, one neighbour word per path table, garbage in allocatable frames); page-table indices (511,511,511,511)"
-    //@ obligation C01 C01.translate_any.shape_p2_huge.probe_agrees_with_walk bounded="pool of 7 tables (4 path + 3 allocatable); tree-shaped sparse pre-state (target path, one neighbour word per path table, garbage in allocatable frames); page-table indices (511,511,511,511)"
-    //@ obligation C01 C01.translate_addr_any.shape_p2_huge.agrees_with_walk bounded="pool of 7 tables (4 path + 3 allocatable); tree-shaped sparse pre-state (target path, one neighbour word per path table, garbage in allocatable frames); page-table indices (511,511,511,511)"
-    //@ obligation C09 C09.translate_any.shape_p2_huge.writes_nothing bounded="pool of 7 tables (4 path + 3 allocatable); tree-shaped sparse pre-state (target path, one neighbour word per path table, garbage in allocatable frames); page-table indices (511,511,511,511)"
-    //@ obligation C09 C09.translate_any.shape_p2_huge.no_frames_requested_or_zeroed bounded="pool of 7 tables (4 path + 3 allocatable); tree-shaped sparse pre-state (target path, one neighbour word per path table, garbage in allocatable frames); page-table indices (511,511,511,511)"
+    //@ obligation C01 C01.translate_any.shape_p2_huge.target_agrees_with_walk tier=thorough bounded="pool of 7 tables (4 path + 3 allocatable); tree-shaped sparse pre-state (target path, one neighbour word per path table, garbage in allocatable frames); page-table indices (511,511,511,511)"
+    //@ obligation C01 C01.translate_any.shape_p2_huge.probe_agrees_with_walk tier=thorough bounded="pool of 7 tables (4 path + 3 allocatable); tree-shaped sparse pre-state (target path, one neighbour word per path table, garbage in allocatable frames); page-table indices (511,511,511,511)"
+    //@ obligation C01 C01.translate_addr_any.shape_p2_huge.agrees_with_walk tier=thorough bounded="pool of 7 tables (4 path + 3 allocatable); tree-shaped sparse pre-state (target path, one neighbour word per path table, garbage in allocatable frames); page-table indices (511,511,511,511)"
+    //@ obligation C09 C09.translate_any.shape_p2_huge.writes_nothing tier=thorough bounded="pool of 7 tables (4 path + 3 allocatable); tree-shaped sparse pre-state (target path, one neighbour word per path table, garbage in allocatable frames); page-table indices (511,511,511,511)"
+    //@ obligation C09 C09.translate_any.shape_p2_huge.no_frames_requested_or_zeroed tier=thorough bounded="pool of 7 tables (4 path + 3 allocatable); tree-shaped sparse pre-state (target path, one neighbour word per path table, garbage in allocatable frames); page-table indices (511,511,511,511)"
     #[kani::proof]
     #[kani::stub(PageTable::zero, zero_stub)]
     fn c01_translate_any_p2_huge_hi() {
@@ -1102,11 +1102,11 @@ mod verif_c01_step_read {
         kani::cover!(true, "c01_translate_any_p2_huge_mid: reachable");
     }
 
-    //@ obligation C01 C01.translate_any.shape_p2_huge.target_agrees_with_walk tier=thorough bounded="pool of 7 tables (4 path + 3 allocatable); tree-shaped sparse pre-state (target path, one neighbour word per path table, garbage in allocatable frames); page-table indices (256,1,510,255)"
-    //@ obligation C01 C01.translate_any.shape_p2_huge.probe_agrees_with_walk tier=thorough bounded="pool of 7 tables (4 path + 3 allocatable); tree-shaped sparse pre-state (target path, one neighbour word per path table, garbage in allocatable frames); page-table indices (256,1,510,255)"
-    //@ obligation C01 C01.translate_addr_any.shape_p2_huge.agrees_with_walk tier=thorough bounded="pool of 7 tables (4 path + 3 allocatable); tree-shaped sparse pre-state (target path, one neighbour word per path table, garbage in allocatable frames); page-table indices (256,1,510,255)"
-    //@ obligation C09 C09.translate_any.shape_p2_huge.writes_nothing tier=thorough bounded="pool of 7 tables (4 path + 3 allocatable); tree-shaped sparse pre-state (target path, one neighbour word per path table, garbage in allocatable frames); page-table indices (256,1,510,255)"
-    //@ obligation C09 C09.translate_any.shape_p2_huge.no_frames_requested_or_zeroed tier=thorough bounded="pool of 7 tables (4 path + 3 allocatable); tree-shaped sparse pre-state (target path, one neighbour word per path table, garbage in allocatable frames); page-table indices (256,1,510,255)"
+    //@ obligation C01 C01.translate_any.shape_p2_huge.target_agrees_with_walk bounded="pool of 7 tables (4 path + 3 allocatable); tree-shaped sparse pre-state (target path, one neighbour word per path table, garbage in allocatable frames); page-table indices (256,1,510,255)"
+    //@ obligation C01 C01.translate_any.shape_p2_huge.probe_agrees_with_walk bounded="pool of 7 tables (4 path + 3 allocatable); tree-shaped sparse pre-state (target path, one neighbour word per path table, garbage in allocatable frames); page-table indices (256,1,510,255)"
+    //@ obligation C01 C01.translate_addr_any.shape_p2_huge.agrees_with_walk bounded="pool of 7 tables (4 path + 3 allocatable); tree-shaped sparse pre-state (target path, one neighbour word per path table, garbage in allocatable frames); page-table indices (256,1,510,255)"
+    //@ obligation C09 C09.translate_any.shape_p2_huge.writes_nothing bounded="pool of 7 tables (4 path + 3 allocatable); tree-shaped sparse pre-state (target path, one neighbour word per path table, garbage in allocatable frames); page-table indices (256,1,510,255)"
+    //@ obligation C09 C09.translate_any.shape_p2_huge.no_frames_requested_or_zeroed bounded="pool of 7 tables (4 path + 3 allocatable); tree-shaped sparse pre-state (target path, one neighbour word per path table, garbage in allocatable frames); page-table indices (256,1,510,255)"
     #[kani::proof]
     #[kani::stub(PageTable::zero, zero_stub)]
     fn c01_translate_any_p2_huge_up() {
@@ -1162,11 +1162,11 @@ mod verif_c01_step_read {
         kani::cover!(true, "c01_translate_any_p1_absent_up: reachable");
     }
 
-    //@ obligation C01 C01.translate_any.shape_p1_leaf.target_agrees_with_walk bounded="pool of 7 tables (4 path + 3 allocatable); tree-shaped sparse pre-state (target path, one neighbour word per path table, garbage in allocatable frames); page-table indices (0,0,0,0)"
-    //@ obligation C01 C01.translate_any.shape_p1_leaf.probe_agrees_with_walk bounded="pool of 7 tables (4 path + 3 allocatable); tree-shaped sparse pre-state (target path, one neighbour word per path table, garbage in allocatable frames); page-table indices (0,0,0,0)"
-    //@ obligation C01 C01.translate_addr_any.shape_p1_leaf.agrees_with_walk bounded="pool of 7 tables (4 path + 3 allocatable); tree-shaped sparse pre-state (target path, one neighbour word per path table, garbage in allocatable frames); page-table indices (0,0,0,0)"
-    //@ obligation C09 C09.translate_any.shape_p1_leaf.writes_nothing bounded="pool of 7 tables (4 path + 3 allocatable); tree-shaped sparse pre-state (target path, one neighbour word per path table, garbage in allocatable frames); page-table indices (0,0,0,0)"
-    //@ obligation C09 C09.translate_any.shape_p1_leaf.no_frames_requested_or_zeroed bounded="pool of 7 tables (4 path + 3 allocatable); tree-shaped sparse pre-state (target path, one neighbour word per path table, garbage in allocatable frames); page-table indices (0,0,0,0)"
+    //@ obligation C01 C01.translate_any.shape_p1_leaf.target_agrees_with_walk tier=thorough bounded="pool of 7 tables (4 path + 3 allocatable); tree-shaped sparse pre-state (target path, one neighbour word per path table, garbage in allocatable frames); page-table indices (0,0,0,0)"
+    //@ obligation C01 C01.translate_any.shape_p1_leaf.probe_agrees_with_walk tier=thorough bounded="pool of 7 tables (4 path + 3 allocatable); tree-shaped sparse pre-state (target path, one neighbour word per path table, garbage in allocatable frames); page-table indices (0,0,0,0)"
+    //@ obligation C01 C01.translate_addr_any.shape_p1_leaf.agrees_with_walk tier=thorough bounded="pool of 7 tables (4 path + 3 allocatable); tree-shaped sparse pre-state (target path, one neighbour word per path table, garbage in allocatable frames); page-table indices (0,0,0,0)"
+    //@ obligation C09 C09.translate_any.shape_p1_leaf.writes_nothing tier=thorough bounded="pool of 7 tables (4 path + 3 allocatable); tree-shaped sparse pre-state (target path, one neighbour word per path table, garbage in allocatable frames); page-table indices (0,0,0,0)"
+    //@ obligation C09 C09.translate_any.shape_p1_leaf.no_frames_requested_or_zeroed tier=thorough bounded="pool of 7 tables (4 path + 3 allocatable); tree-shaped sparse pre-state (target path, one neighbour word per path table, garbage in allocatable frames); page-table indices (0,0,0,0)"
     #[kani::proof]
     #[kani::stub(PageTable::zero, zero_stub)]
     fn c01_translate_any_p1_leaf_lo() {
@@ -1186,11 +1186,11 @@ mod verif_c01_step_read {
         kani::cover!(true, "c01_translate_any_p1_leaf_hi: reachable");
     }
 
-    //@ obligation C01 C01.translate_any.shape_p1_leaf.target_agrees_with_walk tier=thorough bounded="pool of 7 tables (4 path + 3 allocatable); tree-shaped sparse pre-state (target path, one neighbour word per path table, garbage in allocatable frames); page-table indices (255,511,0,1)"
-    //@ obligation C01 C01.translate_any.shape_p1_leaf.probe_agrees_with_walk tier=thorough bounded="pool of 7 tables (4 path + 3 allocatable); tree-shaped sparse pre-state (target path, one neighbour word per path table, garbage in allocatable frames); page-table indices (255,511,0,1)"
-    //@ obligation C01 C01.translate_addr_any.shape_p1_leaf.agrees_with_walk tier=thorough bounded="pool of 7 tables (4 path + 3 allocatable); tree-shaped sparse pre-state (target path, one neighbour word per path table, garbage in allocatable frames); page-table indices (255,511,0,1)"
-    //@ obligation C09 C09.translate_any.shape_p1_leaf.writes_nothing tier=thorough bounded="pool of 7 tables (4 path + 3 allocatable); tree-shaped sparse pre-state (target path, one neighbour word per path table, garbage in allocatable frames); page-table indices (255,511,0,1)"
-    //@ obligation C09 C09.translate_any.shape_p1_leaf.no_frames_requested_or_zeroed tier=thorough bounded="pool of 7 tables (4 path + 3 allocatable); tree-shaped sparse pre-state (target path, one neighbour word per path table, garbage in allocatable frames); page-table indices (255,511,0,1)"
+    //@ obligation C01 C01.translate_any.shape_p1_leaf.target_agrees_with_walk bounded="pool of 7 tables (4 path + 3 allocatable); tree-shaped sparse pre-state (target path, one neighbour word per path table, garbage in allocatable frames); page-table indices (255,511,0,1)"
+    //@ obligation C01 C01.translate_any.shape_p1_leaf.probe_agrees_with_walk bounded="pool of 7 tables (4 path + 3 allocatable); tree-shaped sparse pre-state (target path, one neighbour word per path table, garbage in allocatable frames); page-table indices (255,511,0,1)"
+    //@ obligation C01 C01.translate_addr_any.shape_p1_leaf.agrees_with_walk bounded="pool of 7 tables (4 path + 3 allocatable); tree-shaped sparse pre-state (target path, one neighbour word per path table, garbage in allocatable frames); page-table indices (255,511,0,1)"
+    //@ obligation C09 C09.translate_any.shape_p1_leaf.writes_nothing bounded="pool of 7 tables (4 path + 3 allocatable); tree-shaped sparse pre-state (target path, one neighbour word per path table, garbage in allocatable frames); page-table indices (255,511,0,1)"
+    //@ obligation C09 C09.translate_any.shape_p1_leaf.no_frames_requested_or_zeroed bounded="pool of 7 tables (4 path + 3 allocatable); tree-shaped sparse pre-state (target path, one neighbour word per path table, garbage in allocatable frames); page-table indices (255,511,0,1)"
     #[kani::proof]
     #[kani::stub(PageTable::zero, zero_stub)]
     fn c01_translate_any_p1_leaf_mid() {
